@@ -30,7 +30,14 @@ def probe(conv, types, battery):
     """input index -> result string (the observable compared across converters)."""
     out, kinds = [], []
     for item in battery:
-        cls = getattr(types, item["cls"], None)
+        if item.get("kind") in ("request", "response"):
+            tup = types.METHOD_TO_TYPES.get(item["cls"])
+            cls = tup[0 if item["kind"] == "request" else 1] if tup else None
+        elif item.get("kind") == "notification":
+            tup = types.METHOD_TO_TYPES.get(item["cls"])
+            cls = tup[0] if tup else None
+        else:
+            cls = getattr(types, item["cls"], None)
         if cls is None:
             out.append("nocls")
             kinds.append("")
